@@ -1489,7 +1489,7 @@ def run(ctx):
         run_spec(ctx, r, payload["spec"], "corpus:" + fn)
     run_spec(ctx, r, coverage_spec(), "coverage", nvals=ctx.n(3, 8))
     run_spec(ctx, r, layout_spec(), "layout", nvals=ctx.n(3, 8))
-    n = ctx.n(40, 600)
+    n = ctx.n(40, 500)
     for i in range(n):
         run_spec(ctx, r, gen_spec(r, big=(i % 5 == 4)), f"gen{i}")
 
